@@ -469,6 +469,13 @@ fn matches_restriction(yes: &[MQ], unclear: &[MQ], parsed: &[MQ]) -> bool {
 }
 
 impl Check for C18 {
+    fn fixed_cases(_tier: Tier, _seed: u64) -> Vec<Case> {
+        // large documents (tens of KiB): buffering must not lose or merge statements
+        [(150usize, 1u64, 0u8), (600, 2, 4), (2000, 3, 2)]
+            .into_iter()
+            .map(|(n, salt, indent)| Case { triples: crate::gen::bulk_quads(n, salt, false), indent: indent.max(1) })
+            .collect()
+    }
     type Case = Case;
     const ID: &'static str = "C18";
     fn rule() -> String {
